@@ -162,6 +162,9 @@ def run(tier, seed, t0):
     jobs += [(lambda k=k: ob_kdf(64, k)) for k in (1, 32, 33, 287, 8161)]
     import c13
     jobs += [lambda: c13.g1_ob("is_on_curve", 1, c13.chk_on_curve, "is_on_curve"), ob_point_codec]
+    # the group / pairing layer C1 = [r]Q and w = e(..)^r are evaluated with (obligations of C13 and C12, cheap enough to repeat here)
+    import c12, c13_l4
+    jobs += [c13_l4.ob_point_mul, lambda: c13.g1_ob("point_add", 2, c13.chk_add, "point_add"), lambda: c13.g1_ob("point_double", 1, c13.chk_dbl, "point_double")] + c12.jobs_for(tier)
     res = run_parallel(jobs, nproc=12)
     return finish("C10", tier, seed, "model_checking", res, t0,
                   assumptions=["pairing and group layers uninterpreted (C12/C13), H1 framing in C16; the library derives 287 KDF bytes and slices them, which equals KDF(., |M|+32) by prefix-consistency of the KDF (kdf obligations)",
